@@ -246,12 +246,50 @@ class PathCtx:
                 pass
         if status == 'unknown':
             status, model, backend = second_opinion(self.pc, goal, self.timeout_ms)
+        cross = None
+        if status == 'proved' and backend == 'z3' and CROSSCHECK['per_clause'] > 0:
+            # thorough tier: an independent solver re-checks a sample of the obligations z3 discharged
+            seen = CROSSCHECK['seen']
+            if seen.get(name, 0) < CROSSCHECK['per_clause']:
+                seen[name] = seen.get(name, 0) + 1
+                cross = cvc5_check(self.pc, goal, 15000)
+                if cross == 'sat':
+                    status, backend = 'unknown', 'z3-vs-cvc5-disagree'
+                    note = (note or '') + ' [z3 says unsat, cvc5 says sat: treated as undecided]'
         dt = time.time() - t0
         self.solver_seconds += dt
         res = ObligationResult(name, status, model, goal, where, dt, backend,
                                path=[d.choice for d in self.trace[: self.pos]], note=note)
+        res.cross = cross
         self.results.append(res)
         return res
+
+
+CROSSCHECK = dict(per_clause=0, seen={})
+
+
+def cvc5_check(pc, goal, timeout_ms):
+    """pc /\\ not goal on /usr/bin/cvc5 (SMT-LIB dump of the z3 assertions): 'unsat' | 'sat' | 'unknown' | 'error'."""
+    import os
+    import subprocess
+    import tempfile
+    try:
+        s = z3.Solver()
+        for c in pc:
+            s.add(c)
+        s.add(z3.Not(goal))
+        smt = '(set-logic ALL)\n' + s.to_smt2()
+        fd, fn = tempfile.mkstemp(suffix='.smt2', dir=os.environ.get('VERIF_SCRATCH'))
+        os.write(fd, smt.encode())
+        os.close(fd)
+        try:
+            out = subprocess.run(['/usr/bin/cvc5', f'--tlimit={timeout_ms}', fn], capture_output=True, text=True, timeout=timeout_ms / 1000 + 5)
+            ans = out.stdout.strip().splitlines()[0] if out.stdout.strip() else ''
+        finally:
+            os.unlink(fn)
+        return ans if ans in ('unsat', 'sat', 'unknown') else ('unknown' if 'timeout' in (out.stdout + out.stderr).lower() or 'interrupted' in (out.stdout + out.stderr).lower() else 'error')
+    except Exception:   # noqa
+        return 'error'
 
 
 class InfeasiblePath(Exception):
